@@ -90,14 +90,16 @@ def tagexpr_is_cnf(ast):
     return cnf(ast)
 
 
-def render_tagexpr_v1(ast):
-    """List of --tags arguments in v1 syntax (requires tagexpr_is_cnf)."""
+def render_tagexpr_v1(ast, rng=None):
+    """List of --tags arguments in v1 syntax (requires tagexpr_is_cnf).
+    With an rng every literal draws its own spelling: tag / @tag and
+    -tag / ~tag / -@tag / ~@tag (all documented v1 forms)."""
     def lits(a):
         if a[0] == "or":
             return lits(a[1]) + lits(a[2])
         if a[0] == "not":
-            return ["-" + a[1][1]]
-        return [a[1]]
+            return [(rng.choice(["-", "~", "-@", "~@"]) if rng else "-") + a[1][1]]
+        return [(rng.choice(["", "@"]) if rng else "") + a[1]]
 
     def clauses(a):
         if a[0] == "and":
@@ -299,6 +301,8 @@ def gen_step(rng, lib, last_type, first, opts):
         if rng.random() < 0.25:
             lines.append(rng.choice(["Given a line that looks like a step", "@looks-like-a-tag", "| looks | like | a | table |",
                                      "Scenario: looks like a header", "# looks like a comment"]))
+        if rng.random() < 0.2:
+            lines.append("")        # the doc-string ends in an empty line (text ends with a newline)
         step["doc"] = "\n".join(lines)
         if rng.random() < 0.3:
             step["doc_quote"] = "'''"
@@ -354,7 +358,9 @@ def gen_outline(rng, lib, sid, opts):
                 any(t[0] == "fld" and t[2] == "" for t in d["tokens"]) and d["matcher"] != "re":
             st["text"] = instantiate(rng, d, placeholder=rng.choice(cols))
         if st.get("doc") is not None and rng.random() < 0.5:
-            st["doc"] += ("\nvalue <%s>" if rng.random() < 0.7 else "\n5 > 3 and <%s>") % rng.choice(cols)
+            tail = "\n" if st["doc"].endswith("\n") else ""     # keep a final empty line final
+            st["doc"] = st["doc"][:len(st["doc"]) - len(tail)] + \
+                ("\nvalue <%s>" if rng.random() < 0.7 else "\n5 > 3 and <%s>") % rng.choice(cols) + tail
         if st.get("table") and st["table"]["rows"] and rng.random() < 0.5:
             st["table"]["rows"][0][0] = "<%s>" % rng.choice(cols)
     examples = []
@@ -440,8 +446,8 @@ def gen_items(rng, lib, prefix, n, opts, allow_rules):
 
 def gen_feature(rng, lib, fi, opts):
     fid = "F%d" % fi
-    sub = rng.choice(["", "", "", "area/", "my area/"])
-    fname = "f%d.feature" if rng.random() < 0.9 else "f %d.feature"
+    sub = rng.choice(["", "", "", "", "area/", "my area/", "v1.2/"])
+    fname = rng.choice(["f%d.feature"] * 17 + ["f %d.feature", "f %d.feature", "f.%d.feature"])
     return {"id": fid, "path": "features/%s%s" % (sub, fname % fi),
             "name": "feat %s%s" % (fid, hostile_suffix(rng, opts)),
             "tags": gen_tags(rng, opts["tag_pool"], opts["p_tag"]),
@@ -663,6 +669,8 @@ def gen_outcome(rng, dims):
         o["msg"] = gen_message(rng, dims["hostile"])
     elif k == "notimpl":
         o["msg"] = "todo%d" % rng.randint(0, 9)
+        if rng.random() < 0.4:
+            o["alt"] = True         # raised as behave.api.pending_step.PendingStepError (documented alternative)
     return o
 
 
@@ -930,7 +938,7 @@ def gen_config(rng, world, dims):
         cfg["tagexpr"] = ast
         r = rng.random()
         if tagexpr_is_cnf(ast) and r < 0.3:
-            cfg["tag_args"] = render_tagexpr_v1(ast)
+            cfg["tag_args"] = render_tagexpr_v1(ast, rng)
             cfg["tags_protocol"] = rng.choice(["v1", "auto_detect"])
             # wildcard-free by construction of CNF check (only plain tags)
         else:
@@ -949,6 +957,12 @@ def gen_config(rng, world, dims):
                 pats.append(rng.choice(["alpha", "beta", "gamma", "S0", "S1", "O1", "R0"]))
             else:
                 pats.append(rng.choice([r"S\d$", r"^sc F0", r"al|ga", r"E0\.R1|@1\.2", r"-- @1"]))
+            if names and rng.random() < 0.15:
+                # a pattern with a significant leading/trailing blank (word boundary inside a name)
+                words = rng.choice(names).split(" ")
+                import re as _re
+                w = _re.escape(rng.choice(words)) or "alpha"
+                pats[-1] = rng.choice([w + " ", " " + w, " " + w + " "])
         cfg["names"] = pats
     # formatters
     nf = rng.choice([1, 1, 2, 3, 4])
@@ -968,7 +982,7 @@ def gen_config(rng, world, dims):
     if rng.random() < 0.2:
         cfg["logging_level"] = rng.choice(["DEBUG", "WARNING", "ERROR"])
     if rng.random() < 0.1:
-        cfg["logging_filter"] = rng.choice(["foo", "-foo", "foo,baz"])
+        cfg["logging_filter"] = rng.choice(["foo", "-foo", "foo,baz", "foo,-baz", "-foo,-baz", "baz,-foo.bar", "root,foo.bar"])
     if rng.random() < 0.1:
         cfg["logging_clear_handlers"] = True
     if dims.get("outline_schemas") and rng.random() < 0.5:
@@ -1011,7 +1025,7 @@ def gen_config(rng, world, dims):
         if not paths:
             paths = [feats[0]["path"]]
         if rng.random() < 0.3:
-            cfg["listfile"] = {"path": rng.choice(["sel.txt", "features/sel.txt"]),
+            cfg["listfile"] = {"path": rng.choice(["sel.txt", "features/sel.txt", "lists/sel.txt"]),
                                "comments": rng.random() < 0.5}
     cfg["paths"] = paths
     cfg["pre_handler"] = bool(dims.get("pre_handler"))
